@@ -2,7 +2,7 @@
 """C18 -- a dirfile being appended to can be read concurrently and consistently.
 
 proof:   Properties_C18.v (nframes_monotone, prefix_consistent, no_partial, never_absent_in_place,
-         never_absent_out_of_place, long_lived_consistent (full, current source), long_lived_{fixed,refuted}) over C18/Append.v on the filesystem of C12
+         never_absent_out_of_place, oop_sequence_*, sie_observation / sie_window_exact / sie_consistent_refuted, long_lived_consistent (full, current source), long_lived_{fixed,refuted}) over C18/Append.v on the filesystem of C12
 tie:     harness/C12/shim.c in interactive mode stops the REAL writer (harness/C18/app.c: a foreign
          raw-byte writer with sample-splitting chunks, and the library's gd_putdata/gd_sync/gd_flush
          on unencoded and gzip data) before every system call; at every stop a reader process runs
@@ -216,6 +216,22 @@ def main():
             mlines.append("W %d %d %d %s" % (2 * SPF_A, 2 * SPF_A * 2, len(wsz), " ".join(str(x) for x in wsz)))
             mlines.append("G %d 2 %d %s" % (1 if fx else 0, len(obs), " ".join(str(max(0, o[4])) for o in obs)))
             mown.append((sid, desc, stops, obs))
+        if enc == "sie" and spf == 1:
+            nv = sum(int(c.split(":")[2]) for c in cmd if c.startswith("p:a:"))
+            rcs, so = vlib.sh([drv], inp=("S %d %d\n" % (2 * spf, nv)).encode(), timeout=60)
+            states = [[int(x) for x in l.split()[2:]] for l in so.splitlines() if l.startswith("S ")]
+            last = 0
+            for label, fr, he, gr, sz in obs:
+                a = (fr.get("fields") or {}).get("a")
+                if a is None:
+                    continue
+                idx = [i for i, st_ in enumerate(states) if st_ == a["v"] and i >= last]
+                if not idx:
+                    model_bad.append(("model/sie", "fresh reader %s decodes %s, which is not a state of the record-level model C18/Sie.v at or after step %d" % (label, a["v"], last),
+                                      dict(desc, kind="model-vs-impl", correspondence="C18 sie_observed")))
+                    break
+                last = idx[0]
+                nontriv.add((sid, "sie-state", last))
         if sid < 3:
             chk.sample({"scenario": desc, "stops": len(stops), "nframes_seen_by_fresh_reader": [o[1].get("nf") for o in obs][:40]})
     if mlines:
